@@ -205,14 +205,68 @@ EXEMPT_CALLEES = {
 _current = {"prim": None, "term": None, "fn": None}
 
 
+def _prim_key(f, t):
+    """Key into TOLERATED for the call terminator t (in function f): the unresolved item path, with the ioctl kind."""
+    o = callee_orig(t) or callee_path(t)
+    if o in STATUS_INT_CALLS:
+        import p_role
+        return o + ("#FICLONE" if p_role._is_ficlone(f, t) else "#FIEMAP")
+    return o
+
+
 def _tolerated():
+    """What the error of the current obligation's callee may be absorbed as.  A primitive has its own line in
+    TOLERATED.  A private workspace wrapper around primitives (`found(p.metadata())`, `ioctl_status(libc::ioctl(..))`,
+    `ficlone(dst, src)`) may absorb what the primitives it wraps may absorb: those called in its (transitive) body
+    and those whose results are its arguments."""
     prim = _current.get("prim")
     t = _current.get("term")
     f = _current.get("fn")
-    if prim in STATUS_INT_CALLS and t is not None and f is not None:
-        import p_role
-        prim = prim + ("#FICLONE" if p_role._is_ficlone(f, t) else "#FIEMAP")
-    return TOLERATED.get(prim)
+    if t is not None and f is not None:
+        k = _prim_key(f, t)
+        if k in TOLERATED:
+            return TOLERATED[k]
+    elif prim in TOLERATED:
+        return TOLERATED[prim]
+    fx = getattr(f, "fx", None) if f is not None else None
+    if fx is None or t is None or prim not in fx.fns:
+        return None
+    g = fx.fns[prim]
+    if g.raw.get("exported") or g.raw.get("reachable"):
+        return None
+    import q
+    keys = set()
+    # (a) primitives in the wrapper's body, transitively through private helpers
+    seen, work = set(), [prim]
+    while work:
+        x = work.pop()
+        if x in seen or x not in fx.fns:
+            continue
+        seen.add(x)
+        gx = fx.fns[x]
+        for bi2, t2 in gx.calls():
+            k2 = _prim_key(gx, t2)
+            if k2 in TOLERATED:
+                keys.add(k2)
+            p2 = callee_path(t2)
+            if p2 in fx.fns and not (fx.fns[p2].raw.get("exported") or fx.fns[p2].raw.get("reachable")):
+                work.append(p2)
+            for fv in (t2.get("fn") or {}).get("fnvals", []):
+                work.append(fv)
+    # (b) primitives whose results are handed to the wrapper
+    for ai in range(len(t["args"])):
+        calls, atoms, _ff = q.arg_origin_calls(f, t, ai)
+        for a_ in atoms:
+            if a_.kind == "call" and a_.site is not None and a_.site.is_term:
+                k2 = _prim_key(f, a_.site.node)
+                if k2 in TOLERATED:
+                    keys.add(k2)
+    if not keys:
+        return None
+    tol = set()
+    for k2 in keys:
+        tol |= set(TOLERATED[k2][0])
+    return tol, "wraps %s" % ", ".join(sorted(x.split("::")[-1] for x in keys))
 
 
 def _ident_matches(ident, tol):
